@@ -196,8 +196,15 @@ fn run_cli(args: &[String], stdin: &[u8], dir: &str, strace: bool) -> (Ran, bool
     let mut so = child.stdout.take().unwrap();
     let mut se = child.stderr.take().unwrap();
     let t1 = std::thread::spawn(move || {
+        // bounded: a wrongly unlimited printer must not fill memory
         let mut v = Vec::new();
-        let _ = so.read_to_end(&mut v);
+        let mut buf = [0u8; 65536];
+        while v.len() < (4 << 20) {
+            match so.read(&mut buf) {
+                Ok(0) | Err(_) => break,
+                Ok(n) => v.extend_from_slice(&buf[..n]),
+            }
+        }
         v
     });
     let t2 = std::thread::spawn(move || {
@@ -211,7 +218,7 @@ fn run_cli(args: &[String], stdin: &[u8], dir: &str, strace: bool) -> (Ran, bool
         if let Ok(Some(s)) = child.try_wait() {
             break Some(s);
         }
-        if start.elapsed() > Duration::from_secs(20) {
+        if start.elapsed() > Duration::from_secs(if strace { 20 } else { 5 }) {
             let _ = child.kill();
             let _ = child.wait();
             timed_out = true;
@@ -306,6 +313,16 @@ fn cases(tier: Tier) -> Vec<Case> {
                     push(&mut out, f, s(&[PROBE_LIMIT]), b"", false);
                 }
             }
+        }
+        // --static together with --limit, in both orders: the limit still applies
+        for lim in &limits[1..] {
+            let mut f = s(&[b, "--static"]);
+            f.extend(s(lim));
+            push(&mut out, f, s(&[PROBE_LIMIT]), b"", false);
+            let mut f = s(&[b]);
+            f.extend(s(lim));
+            f.push("--static".to_string());
+            push(&mut out, f, s(&[PROBE_LIMIT]), b"", true);
         }
         // echo: stdin handling, flags after the code
         push(&mut out, s(&[b]), s(&[PROBE_ECHO]), b"AB", false);
@@ -419,7 +436,7 @@ fn judge(ctx: &mut WorkerCtx, dir: &str, case: &Case) {
     let (ran, exec_map) = run_cli(&case.args, &case.stdin, dir, case.strace);
     let mut problems: Vec<String> = Vec::new();
     if ran.timed_out {
-        problems.push("no exit within 20 s".into());
+        problems.push("no exit within the time limit (output so far kept)".into());
     }
     if let Some(want) = &exp.stdout {
         if ran.stdout != *want {
